@@ -398,3 +398,22 @@ Proof.
         try (eapply Forall_impl; [|exact I3]; unfold seq_lt; cbn; intros; lia). }
   destruct (G n 0) as [G1 _]. exact G1.
 Qed.
+
+(** the activation requested by [schedule(delay=d)] is due exactly [d] after now, the one requested by
+    [schedule()] exactly now; nothing else is added to the queue *)
+Lemma kafter_due l d t s b :
+  xpos d && xltb (now l) (xadd (now l) d) = true ->
+  In b (queued (kapply l (KAfter d t s))) ->
+  In b (queued l) \/ (a_tgt b = t /\ a_sig b = s /\ a_due b = xadd (now l) d /\ a_seq b = nseq l).
+Proof.
+  intros H. unfold queued, kapply. rewrite H. cbn. rewrite !in_app_iff, in_wq_push.
+  intros [Hb|[Hb|Hb]]; auto. right. subst b. cbn. auto.
+Qed.
+
+Lemma know_due l t s b :
+  In b (queued (kapply l (KNow t s))) ->
+  In b (queued l) \/ (a_tgt b = t /\ a_sig b = s /\ a_due b = now l /\ a_seq b = nseq l).
+Proof.
+  unfold queued, kapply. cbn. rewrite !in_app_iff. cbn.
+  intros [[Hb|[Hb|[]]]|Hb]; auto. right. subst b. cbn. auto.
+Qed.
